@@ -49,7 +49,7 @@ PROP = dict(
     stages=[
         _walk("pair", "pair_q", "pair_t", {"quick": 25, "thorough": 100}),
         _walk("solo", "solo", "solo", {"quick": 8, "thorough": 15}, backoff=True),
-        _walk("mix", "mix_q", "mix_t", {"quick": 25, "thorough": 60}),
+        _walk("mix", "mix_q", "mix_t", {"quick": 25, "thorough": 45}),
         dict(kind="tlc", name="timed-mix", module="Peers", cfg={"quick": "MC_Peers_mix_q_timed.cfg", "thorough": "MC_Peers_mix_mc_timed.cfg"}, workers=8),
         dict(kind="tlc", name="timed", module="Peers", cfg={"quick": "MC_Peers_pair_q_timed.cfg", "thorough": "MC_Peers_pair_mc_timed.cfg"}, workers=8),
         dict(kind="walk", name="codec", module="PeersCodec", pkg="internal/peer", test="TestVerifC18Codec", harness=_H,
@@ -60,7 +60,7 @@ PROP = dict(
         dict(kind="tlc", name="timed-pairfail-loose", module="Peers", cfg="MC_Peers_pairfail_mc_loose_timed.cfg", workers=8, tiers=("thorough",)),
         _walk("restart", "restart", "restart", {"thorough": 60}, tiers=("thorough",)),
         _walk("trio", "trio", "trio", {"thorough": 100}, tiers=("thorough",)),
-        _walk("roll", "roll", "roll", {"thorough": 90}, tiers=("thorough",)),
+        _walk("roll", "roll", "roll", {"thorough": 60}, tiers=("thorough",)),
         dict(kind="tlc", name="timed-roll", module="Peers", cfg="MC_Peers_roll_mc_timed.cfg", workers=8, tiers=("thorough",)),
         dict(kind="tlc", name="timed-pair-loose", module="Peers", cfg="MC_Peers_pair_q_loose_timed.cfg", workers=8, tiers=("thorough",)),
         dict(kind="tlc", name="timed-restart", module="Peers", cfg="MC_Peers_restart_mc_timed.cfg", workers=8, tiers=("thorough",)),
